@@ -1,46 +1,76 @@
 (* The generated list equality for lists of primitives (src/compiler/list_types.go 389-404): after the length
-   test it calls libc memcmp on the element arrays - which src/compiler/runtime_bindings.go 64-72 declares as
-   returning ddpbool (i1) - and returns `icmp eq i1 %memcmp, 0`.  The caller therefore sees only the lowest
-   bit of memcmp's int result.  C only fixes the SIGN of memcmp's result; glibc returns the difference of the
-   first differing bytes, which is what [memcmp_diff] models (a Section-free, executable choice; the
-   refutation below holds for this libc, the partial theorem for every libc). *)
-From Coq Require Import ZArith List Bool Lia.
+   test it calls libc memcmp on the element arrays and returns `icmp eq i32 %memcmp, 0` (memcmp is bound with
+   its C return type int since 6fc9b92; at the pinned commit it was bound as returning i1, which made
+   [1] gleich [3] true - found by this property's check, see KNOWN_FINDINGS `fixed:`).
+   C specifies: memcmp returns 0 iff the two byte sequences are equal.  The element array of a Zahlen Liste is
+   the sequence of the little-endian bytes of the 64-bit representatives. *)
+From Coq Require Import ZArith Znumtheory Zdiv List Bool Lia.
 Import ListNotations.
-From DDP Require Import Lang.Syntax Lang.F64 Lang.RefSem.
+From DDP Require Import Lang.Syntax Lang.F64 Lang.RefSem Lower.Ops Lower.OpsProofs.
 Open Scope Z_scope.
 
-(* little-endian bytes of an i64 element given by its unsigned representative *)
-Definition le_bytes64 (u : Z) : list Z :=
-  map (fun i => (u / 256 ^ i) mod 256) [0; 1; 2; 3; 4; 5; 6; 7].
+Fixpoint bytes (n : nat) (u : Z) : list Z :=
+  match n with O => [] | S k => (u mod 256) :: bytes k (u / 256) end.
 
-Fixpoint memcmp_diff (a b : list Z) : Z :=
-  match a, b with
-  | x :: a', y :: b' => if x =? y then memcmp_diff a' b' else x - y
-  | _, _ => 0
-  end.
+Definition le_bytes64 (u : Z) : list Z := bytes 8 u.
 
-(* an i1 read from an int return value: its lowest bit *)
-Definition as_i1 (r : Z) : bool := Z.odd r.
+(* memcmp(p, q, n) == 0 *)
+Definition memcmp_is_zero (a b : list Z) : bool := list_eqb Z.eqb a b.
 
 Definition lower_list_eq_zahl (a b : list Z) : bool :=
   if negb (Nat.eqb (length a) (length b)) then false
-  else
-    let ba := flat_map (fun z => le_bytes64 (z mod 2^64)) a in
-    let bb := flat_map (fun z => le_bytes64 (z mod 2^64)) b in
-    Bool.eqb (as_i1 (memcmp_diff ba bb)) false.
+  else memcmp_is_zero (flat_map (fun z => le_bytes64 (z mod 2^64)) a) (flat_map (fun z => le_bytes64 (z mod 2^64)) b).
 
-Lemma memcmp_diff_refl : forall a, memcmp_diff a a = 0.
-Proof. induction a; cbn [memcmp_diff]; [reflexivity|]. now rewrite Z.eqb_refl. Qed.
-
-(* what does hold: equal lists compare equal *)
-Theorem list_eq_lowering_partial : forall a, lower_list_eq_zahl a a = true.
+Lemma list_eqb_spec : forall x y, list_eqb Z.eqb x y = true <-> x = y.
 Proof.
-  intros a. unfold lower_list_eq_zahl. rewrite Nat.eqb_refl. cbn [negb].
-  rewrite memcmp_diff_refl. reflexivity.
+  induction x as [|p x IH]; destruct y as [|q y]; cbn [list_eqb]; split; intros H; try reflexivity; try discriminate H.
+  - apply andb_true_iff in H. destruct H as [H1 H2]. apply Z.eqb_eq in H1. apply IH in H2. now subst.
+  - inversion H; subst. rewrite Z.eqb_refl. cbn. now apply IH.
 Qed.
 
-(* what the language prescribes (element-wise comparison) is violated: [1] gleich [3] *)
-Theorem list_eq_lowering_refuted :
-  exists a b, value_eqb (VL TZahl (map VZ a)) (VL TZahl (map VZ b)) = Some false /\
-              lower_list_eq_zahl a b = true.
-Proof. exists [1], [3]. split; vm_compute; reflexivity. Qed.
+Lemma bytes_length : forall n u, length (bytes n u) = n.
+Proof. induction n; intros; cbn [bytes length]; auto. Qed.
+
+Lemma bytes_inj : forall n u w,
+  0 <= u < 256 ^ Z.of_nat n -> 0 <= w < 256 ^ Z.of_nat n -> bytes n u = bytes n w -> u = w.
+Proof.
+  induction n as [|n IH]; intros u w Hu Hw H.
+  - cbn in Hu, Hw. lia.
+  - cbn [bytes] in H. inversion H as [[H0 H1]].
+    rewrite Nat2Z.inj_succ, Z.pow_succ_r in Hu, Hw by lia.
+    assert (E : u / 256 = w / 256).
+    { apply IH; auto.
+      - split; [apply Z.div_pos; lia|apply Z.div_lt_upper_bound; lia].
+      - split; [apply Z.div_pos; lia|apply Z.div_lt_upper_bound; lia]. }
+    rewrite (Z.div_mod u 256), (Z.div_mod w 256) by lia. rewrite E, H0. reflexivity.
+Qed.
+
+Lemma app_inj_len : forall (A : Type) (l1 l2 r1 r2 : list A),
+  length l1 = length l2 -> l1 ++ r1 = l2 ++ r2 -> l1 = l2 /\ r1 = r2.
+Proof.
+  induction l1 as [|x l1 IH]; destruct l2 as [|y l2]; cbn; intros r1 r2 HL H; try discriminate HL.
+  - auto.
+  - inversion H; subst. destruct (IH l2 r1 r2) as [E1 E2]; auto. now subst.
+Qed.
+
+Definition in_range (l : list Z) : Prop := Forall (fun z => min64 <= z <= max64) l.
+
+(* gleich on Zahlen Listen: the emitted code answers wahr exactly for equal lists (same length, equal elements) *)
+Theorem list_eq_lowering_correct : forall a b,
+  in_range a -> in_range b -> (lower_list_eq_zahl a b = true <-> a = b).
+Proof.
+  unfold lower_list_eq_zahl, memcmp_is_zero.
+  induction a as [|x a IH]; destruct b as [|y b]; intros Ha Hb; cbn [length Nat.eqb negb flat_map];
+    split; intros H; try reflexivity; try discriminate H.
+  - destruct (Nat.eqb (length a) (length b)) eqn:L; cbn [negb] in H; [|discriminate H].
+    apply list_eqb_spec in H.
+    apply app_inj_len in H; [|unfold le_bytes64; now rewrite !bytes_length].
+    destruct H as [H1 H2].
+    inversion Ha; subst. inversion Hb; subst.
+    assert (E : x mod 2^64 = y mod 2^64).
+    { apply (bytes_inj 8); auto; change (256 ^ Z.of_nat 8) with (2^64); apply Z.mod_pos_bound; lia. }
+    assert (x = y) by (rewrite <- (signed64_mod x), <- (signed64_mod y) by assumption; now rewrite E).
+    subst. f_equal. apply (IH b); auto.
+    rewrite L. cbn [negb]. now apply list_eqb_spec.
+  - inversion H; subst. rewrite Nat.eqb_refl. cbn [negb]. now apply list_eqb_spec.
+Qed.
